@@ -383,10 +383,13 @@ func mergeRoots(
 
 			newTree, err := tree.Clone(ctx)
 			if err != nil {
-				if !skipUnreadable {
+				// only an object that is gone (deleted by a concurrent vacuum) may be set
+				// aside; any other fault must not pass for a table without this version
+				var ae awserr.Error
+				if !skipUnreadable || !errors.As(err, &ae) || ae.Code() != s3.ErrCodeNoSuchKey {
 					return nil, nil, 0, fmt.Errorf("clone: %w", err)
 				}
-				if cfg.LogFunc != nil && skipUnreadable {
+				if cfg.LogFunc != nil {
 					cfg.LogFunc(fmt.Sprintf("skipping merge un-cloneable tree %v: %v", key, err))
 				}
 				continue
